@@ -139,6 +139,9 @@ def run_case(tree, spec, extra, cfgname, earlier=()):
     others = None
     if form.startswith("others-"):
         others, form = form[len("others-"):], ""
+    refused_first = form == "same-dict-after-refusal"
+    if refused_first:
+        form = ""
     if cfgname.startswith("l3:"):
         from . import C04
 
@@ -189,7 +192,21 @@ def run_case(tree, spec, extra, cfgname, earlier=()):
     problems = []
     with _written(out, cfgname) as d:
         try:
-            if earlier:
+            if refused_first:
+                # a load that is refused part-way (another criterion of the same dictionary compares a density with a length), then
+                # the same dictionary object, corrected, given to load() again
+                mesh_sel = dict(sel)
+                mesh_sel["density"] = lambda dd: dd > 1.0 * osyris.units("cm")
+                whole = {"mesh": mesh_sel}
+                ds = _load.new_dataset(d, out.nout)
+                try:
+                    _load.call_load(ds, select=whole)
+                    problems.append(("load-with-incompatible-criterion-not-refused", {}))
+                except Exception:
+                    pass
+                del mesh_sel["density"]
+                text = _load.call_load(ds, select=whole)
+            elif earlier:
                 ds = _load.new_dataset(d, out.nout)
                 for e_spec in earlier:
                     if holder is not None and e_spec is not None:
@@ -231,7 +248,10 @@ def run_case(tree, spec, extra, cfgname, earlier=()):
     for sig, det in pr:
         problems.append((sig + (":cap-below-refinement" if capped else ""), det))
     # explicit tiling check on the 2^Lstar lattice when every level up to Lstar is accepted
-    if extra == "none" and all(level_accepts(spec, l) for l in range(1, Lstar + 1)):
+    finer = int(np.sum(np.asarray(mesh["level"].values).astype(int) > Lstar)) if "level" in mesh.keys() else 0
+    if finer:
+        problems.append(("cells-finer-than-the-highest-accepted-level", {"cells": finer, "Lstar": Lstar}))
+    elif extra == "none" and all(level_accepts(spec, l) for l in range(1, Lstar + 1)):
         cover = tiling(mesh, out, Lstar)
         if cover is not None and not np.all(cover == 1):
             problems.append(("tiling-holes-or-overlaps" + (":cap-below-refinement" if capped else ""),
@@ -337,6 +357,10 @@ def cases(thorough):
             for t in [t for t in trees if any(l < t.levelmax for (l, _c) in t.refined)][:: max(1, len(trees) // 5)][:5]:
                 for spec in level_specs(t.levelmax)[::3]:
                     yield label, t, spec, "none:others-" + others, "1cpu-part-sink"
+    for label, trees in fams:
+        for t in [t for t in trees if any(l < t.levelmax for (l, _c) in t.refined)][:: max(1, len(trees) // 4)][:4]:
+            for spec in level_specs(t.levelmax)[::4]:
+                yield label, t, spec, "none:same-dict-after-refusal", "1cpu"
     for form in ("partial", "callable-object", "bound-method", "def"):
         for label, trees in fams[:3]:
             for t in trees[:: max(1, len(trees) // 3)][:3]:
